@@ -6,7 +6,7 @@
    That rustc accepts the expansion (trait resolution, lifetimes, hygiene) cannot be modelled here; it is TESTED by compiling generated declarations. *)
 From Coq Require Import List Arith String.
 From Coq Require Import Lia.
-Require Import P.ParseModel P.ParseGrammar P.ParseProof P.ParsePrintModel P.ParsePrint P.ParseDecl P.ParseDeclGrammar P.ParseDeclProof P.ParseInterp P.ParseInterpProof.
+Require Import P.ParseModel P.ParseGrammar P.ParseProof P.ParsePrintModel P.ParsePrint P.ParseDecl P.ParseDeclGrammar P.ParseDeclProof P.ParseInterp P.ParseInterpProof P.ParseUsed P.ParseUsedProof.
 Theorem parse_complete : forall t rest, wf t -> stop rest -> next_type (S (depth t)) (lex t ++ rest) = Ok (Some (embed t)) rest.
 Proof. exact ParseProof.parse_complete. Qed.
 (* what the templates consume of an `Option<X>` field: the base name and the wrapped type *)
@@ -107,6 +107,12 @@ Proof.
   intros n. rewrite exp_attrs_items. apply flag_spec.
 Qed.
 
+(* which lifetime parameters a field type USES (derive/src/difference.rs::get_used_lifetimes; the generated enums declare exactly those):
+   for every well-formed type the helper reports exactly the lifetimes written in it, in order of occurrence - as the prefix of a reference
+   or as a generic argument. The second statement is finding D11: the code as it was (no case for a lifetime used as generic argument)
+   reported nothing for `Cow<'a, str>`, so the expansion used an undeclared lifetime. *)
+Theorem used_lifetimes_exact : forall t, wf t -> used_lifetimes (embed t) = lifetimes_of t.
+Proof. exact ParseUsedProof.used_lifetimes_exact. Qed.
 (* the finding the proof produced: `&&T` is not consumed as one type (the real parser then panics on the leftover) *)
 Example nested_ref_not_one_type :
   next_type 5 (lex (GRef None (GRef None (GPath "T" nil nil)))) = Ok (Some (Ty CUnNamed None (Some None) None)) (TP PAmp :: TId "T" :: nil).
@@ -118,3 +124,4 @@ Print Assumptions struct_parse_complete.
 Print Assumptions interpretation_stable.
 Print Assumptions attribute_readings.
 Print Assumptions parsed_field_flags.
+Print Assumptions used_lifetimes_exact.
